@@ -49,6 +49,7 @@ const OLD: &[u8] = b"OLD-OBJECT-CONTENT-0123456789";
 const OLD_META: &[u8] = br#"{"tag":"OLD"}"#;
 const OLD_INFO: &[u8] = br#"{"checksum_crc32":"T0xE"}"#;
 const PART_MIN: usize = 5 * 1024 * 1024;
+const BIG_FRAME: usize = 3 * 1024 * 1024 + 17;
 
 fn b64(s: &str) -> String {
     base64_simd::URL_SAFE_NO_PAD.encode_to_string(s)
@@ -378,6 +379,13 @@ fn run_single(
                     }
                     v.truncate(PART_MIN);
                     v
+                } else if (op == "put_object" || op == "upload_part") && big {
+                    // one transport frame beyond what a single write to a file takes (tokio: 2 MiB per call)
+                    let mut v = Vec::with_capacity(BIG_FRAME + b.len());
+                    while v.len() < BIG_FRAME {
+                        v.extend_from_slice(if b.is_empty() { b"x" } else { b });
+                    }
+                    v
                 } else {
                     b.clone()
                 }
@@ -441,7 +449,7 @@ fn run_single(
     // fault `declared`: no fault of its own; the request declares its Content-Length (the total of the data frames), as every
     // request that comes through the HTTP layer does - an error item of the body stream must count wherever it sits, also after
     // the last declared byte
-    let declared: Option<i64> = (fault == "declared").then(|| frames.iter().flatten().map(Vec::len).sum::<usize>() as i64);
+    let declared: Option<i64> = (fault == "declared").then(|| real_parts.iter().flatten().map(Vec::len).sum::<usize>() as i64);
     let disk = Disk { root: root.to_path_buf(), key: key.to_owned(), dest: dest.clone(), new_content, new_info };
     let pulled = Arc::new(AtomicUsize::new(0));
     let progress = Arc::new(AtomicUsize::new(0));
@@ -477,7 +485,7 @@ fn run_single(
             let input = PutObjectInput::builder()
                 .bucket("b".to_owned())
                 .key(key.to_owned())
-                .body(Some(body(frames.to_vec())))
+                .body(Some(body(real_parts.clone())))
                 .content_length(declared)
                 .metadata(new_metadata(hasmeta))
                 .checksum_crc32(ck.0.clone())
@@ -495,7 +503,7 @@ fn run_single(
                 .key("obj".to_owned())
                 .upload_id(upload_id.clone())
                 .part_number(1)
-                .body(Some(body(frames.to_vec())))
+                .body(Some(body(real_parts.clone())))
                 .content_length(declared)
                 .build()
                 .unwrap();
@@ -669,6 +677,12 @@ fn generate(rng: &mut Rng, n: u64, tier: &str, emit: &mut dyn FnMut(Vec<String>)
                     }
                 }
             }
+        }
+        // ---- transport frames of several MiB (a body that arrives in one piece): all of it is written, or nothing changes
+        for op in ["put_object", "upload_part"] {
+            emit(mk(op, prev, fr(&frame_sets[1]), "none".into(), op == "put_object", true));
+            emit(mk(op, prev, fr(&frame_sets[2]), "declared".into(), false, true));
+            emit(mk(op, prev, fr(&[Some(a), None]), "none".into(), false, true));
         }
         for alg in ["crc32", "crc32c", "sha1", "sha256"] {
             for fs in &frame_sets[..4] {
